@@ -137,7 +137,8 @@ func NormalizeFrequencies(freqs []int, alphabet []int, totalFreq, scale int) (in
 
 	// Shortcut
 	if totalFreq == scale {
-		for i := 0; i < 256; i++ {
+		// The slices may be shorter than 256 entries
+		for i := 0; i < min(256, len(freqs)); i++ {
 			if freqs[i] != 0 {
 				alphabet[alphabetSize] = i
 				alphabetSize++
